@@ -1,4 +1,7 @@
 import NibabelModel.Model.C17
+import NibabelModel.Model.C17_Hist
+import NibabelModel.Model.C17_Gen
+import NibabelModel.Generated.C17Funcs
 import NibabelModel.Generated.C17Codes
 import Driver.Util
 /-! Line-protocol driver for C17: `C17 <op> <args...>` -> one observable line.
@@ -13,6 +16,15 @@ import Driver.Util
                              bytes `_data_tag_element` hands to zlib/base64 (hex)
       wevents <image tokens>   handler calls the serialisation of the image produces (writer model `imgEvents`)
       parse <event|table>*   the parser event machine
+      gen <numDA|get|rm> <arg|_> <id:intent,…|->   the container methods TRANSLATED from the working tree
+                             (Generated/C17Funcs) on a list of (id,intent) objects: ids of the result / new darrays
+      whist <hop|table>*     object history of ONE image (Model/C17_Hist `runLit`): the handler calls of every serialisation,
+                             joined by " | ".  hop = X | Y~base | V~text | G~k:v | Gd~k | Gn~k:v… | L~key~label~r~g~b~a |
+                             Ls~j~key~label~r~g~b~a | Ld~j | Ln | N~id~dt~shape~bits | E~pos~bits |
+                             O~id~nd~intent~dt~ord~enc~endian~dims~fname~off~ds~xs~mtext~k:v… | A~id | P~int | R~code |
+                             F~pos~(intent|datatype|ord|enc|endian)~c | F~pos~dims~list | F~pos~ext~fname~off |
+                             F~pos~mset~k:v | F~pos~mdel~k | F~pos~mnew~k:v… | F~pos~cs~ds~xs~mtext | F~pos~data~nd
+                             table = Q~enc~datatype~ord~memdt~shape~bits~text (answer of the external <Data> encoder)
     text  = code points in hex joined by '.', '-' = empty
     event = S~tag~k=text~k=text… | C~text | E~tag
     table = Z~hexbytes~hexbytes (zlib.decompress answer) | F~text~bits (ASCII float token → float32 bit pattern)
@@ -277,7 +289,170 @@ def parseWImg? : List String → WImg → Option WImg
       parseWImg? ts { w with darrays := w.darrays ++ [da] }
     | _ => none
 
+/-! object histories -/
+
+structure QEntry where
+  enc : Nat
+  dt : Nat
+  ord : Nat
+  arr : NdArr
+  text : Text
+
+/-- text no XML document can contain: marks a `<Data>` text the harness did not supply -/
+def missingText : Text := [Char.ofNat 0]
+
+def dataEncOf (q : List QEntry) : DataEnc := fun enc dt ord a =>
+  match q.find? (fun e => e.enc == enc && e.dt == dt && e.ord == ord && e.arr == a) with
+  | some e => e.text
+  | none => missingText
+
+def parseWLabel? (key lab r g b a : String) : Option WLabel := do
+  let key ← key.toNat?
+  let lab ← parseText? lab
+  let r ← parseOT? r
+  let g ← parseOT? g
+  let b ← parseOT? b
+  let a ← parseOT? a
+  pure { key := key, label := lab, red := r, green := g, blue := b, alpha := a }
+
+def parseHOp? (tok : String) : Option Op :=
+  match tok.splitOn "~" with
+  | ["X"] => some .ser
+  | ["Y", b] => b.toNat?.map Op.reload
+  | ["V", v] => (parseText? v).map Op.version
+  | ["G", kv] => (parsePair? kv).map (fun p => Op.gmetaSet p.1 p.2)
+  | ["Gd", k] => (parseText? k).map Op.gmetaDel
+  | "Gn" :: kvs => (kvs.mapM parsePair?).map Op.gmetaNew
+  | ["L", key, lab, r, g, b, a] => (parseWLabel? key lab r g b a).map Op.labelAdd
+  | ["Ls", j, key, lab, r, g, b, a] => do
+    let j ← j.toNat?
+    let l ← parseWLabel? key lab r g b a
+    pure (Op.labelSet j l)
+  | ["Ld", j] => j.toNat?.map Op.labelDel
+  | ["Ln"] => some .labelsNew
+  | ["N", id, dt, shape, bits] => do
+    let id ← id.toNat?
+    let dt ← dt.toNat?
+    let shape ← parseNatList? shape
+    let bits ← parseNatList? bits
+    pure (Op.newNd id ⟨dt, shape, bits⟩)
+  | ["E", pos, bits] => do
+    let pos ← pos.toNat?
+    let bits ← parseNatList? bits
+    pure (Op.editNd pos bits)
+  | "O" :: id :: nd :: it :: dt :: ord :: enc :: en :: dims :: fname :: off :: ds :: xs :: mtext :: kvs => do
+    let id ← id.toNat?
+    let nd ← nd.toNat?
+    let it ← it.toNat?
+    let dt ← dt.toNat?
+    let ord ← ord.toNat?
+    let enc ← enc.toNat?
+    let en ← en.toNat?
+    let dims ← parseNatList? dims
+    let fname ← parseText? fname
+    let off ← off.toNat?
+    let ds ← ds.toNat?
+    let xs ← xs.toNat?
+    let mtext ← parseText? mtext
+    let m ← kvs.mapM parsePair?
+    pure (Op.newDA id { data := nd, intent := it, datatype := dt, indOrd := ord, encoding := enc, dims := dims,
+                        extFname := fname, extOffset := off, dmeta := m,
+                        coordsys := { dataspace := ds, xformspace := xs, matrixText := mtext } } en)
+  | ["A", id] => id.toNat?.map Op.add
+  | ["P", i] => i.toInt?.map Op.pop
+  | ["R", c] => c.toNat?.map Op.removeIntent
+  | "F" :: pos :: field :: args => do
+    let pos ← pos.toNat?
+    match field, args with
+    | "intent", [c] => c.toNat?.map (fun c => Op.setDA pos (.intent c))
+    | "datatype", [c] => c.toNat?.map (fun c => Op.setDA pos (.datatype c))
+    | "ord", [c] => c.toNat?.map (fun c => Op.setDA pos (.indOrd c))
+    | "enc", [c] => c.toNat?.map (fun c => Op.setDA pos (.encoding c))
+    | "endian", [c] => c.toNat?.map (fun c => Op.setEndian pos c)
+    | "dims", [l] => (parseNatList? l).map (fun l => Op.setDA pos (.dims l))
+    | "ext", [f, off] => do
+      let f ← parseText? f
+      let off ← off.toNat?
+      pure (Op.setDA pos (.ext f off))
+    | "mset", [kv] => (parsePair? kv).map (fun p => Op.setDA pos (.metaSet p.1 p.2))
+    | "mdel", [k] => (parseText? k).map (fun k => Op.setDA pos (.metaDel k))
+    | "mnew", kvs => (kvs.mapM parsePair?).map (fun m => Op.setDA pos (.metaNew m))
+    | "cs", [ds, xs, mtext] => do
+      let ds ← ds.toNat?
+      let xs ← xs.toNat?
+      let mtext ← parseText? mtext
+      pure (Op.setDA pos (.coord { dataspace := ds, xformspace := xs, matrixText := mtext }))
+    | "data", [nd] => nd.toNat?.map (fun nd => Op.setDA pos (.data nd))
+    | _, _ => none
+  | _ => none
+
+def parseQ? (tok : String) : Option QEntry :=
+  match tok.splitOn "~" with
+  | ["Q", enc, dt, ord, mdt, shape, bits, text] => do
+    let enc ← enc.toNat?
+    let dt ← dt.toNat?
+    let ord ← ord.toNat?
+    let mdt ← mdt.toNat?
+    let shape ← parseNatList? shape
+    let bits ← parseNatList? bits
+    let text ← parseText? text
+    pure ⟨enc, dt, ord, ⟨mdt, shape, bits⟩, text⟩
+  | _ => none
+
+def splitHist : List String → List QEntry → List Op → Option (List QEntry × List Op)
+  | [], q, acc => some (q.reverse, acc.reverse)
+  | t :: ts, q, acc =>
+    if t.startsWith "Q~" then (parseQ? t).bind (fun e => splitHist ts (e :: q) acc)
+    else (parseHOp? t).bind (fun o => splitHist ts q (o :: acc))
+
+def eventHasMissing : Event → Bool
+  | .chars t => t == missingText
+  | _ => false
+
+/-! translated container methods -/
+
+def parseDAs? (s : String) : Option (List DA) :=
+  if s = "-" then some []
+  else (s.splitOn ",").mapM (fun t => match t.splitOn ":" with
+    | [i, it] => do
+      let i ← i.toNat?
+      let it ← it.toNat?
+      pure (⟨i, it⟩ : DA)
+    | _ => none)
+
+def showGen (r : Nb.Py.M Nb.Py.V) : String :=
+  match r with
+  | .ok v => match Nb.C17.GenF.idsOf? v with
+    | some ids => showList ids
+    | none => match v with
+      | .int n => toString n
+      | _ => "bad-op"
+  | .error .indexError => "ERR:KeyError"
+  | .error _ => "ERR"
+
 def handle : List String → String
+  | ["gen", fn, arg, das] =>
+    match parseDAs? das, (if arg = "_" then some none else (parseIntentArg? arg).map some) with
+    | some l, some a =>
+      let L := Nb.C17.GenF.encL l
+      let ic := Nb.C17.GenF.icOf K
+      match fn, a with
+      | "numDA", none => showGen (Nb.Gen.C17F.numDA L)
+      | "get", some a => showGen (Nb.Gen.C17F.get_arrays_from_intent ic L (Nb.C17.GenF.encArg a))
+      | "rm", some a => showGen (Nb.Gen.C17F.remove_gifti_data_array_by_intent ic L (Nb.C17.GenF.encArg a))
+      | _, _ => "bad-op"
+    | _, _ => "bad-op"
+  | "whist" :: toks =>
+    match splitHist toks [] [] with
+    | some (q, ops) =>
+      let native := if Nb.C17.Gen.nativeBig then K.endBig else K.endLittle
+      match runLit Nb.C17.Gen.names native (dataEncOf q) (orderOf K) {} ops with
+      | some outs =>
+        if outs.any (·.any eventHasMissing) then "bad-op"
+        else if outs.isEmpty then "-"
+        else " | ".intercalate (outs.map (fun es => " ".intercalate (es.map showEvent)))
+      | none => "bad-op"
+    | none => "bad-op"
   | "hist" :: ops =>
     match runHist [] ops with
     | some outs => if outs.isEmpty then "-" else " ".intercalate outs
